@@ -48,6 +48,19 @@ class FuncFacts:
         fn = self.f.node
         # definitions and entry aliases
         for n in walk_no_nested(fn):
+            # every other way a local gets a value is one more definition (so that it is not taken for its first assignment):
+            # augmented assignment, annotated assignment, walrus, tuple / starred targets, loop / with / except targets, del
+            if isinstance(n, ast.AugAssign) and isinstance(n.target, ast.Name):
+                self.defs.setdefault(n.target.id, []).append((ast.BinOp(left=ast.Name(id=n.target.id, ctx=ast.Load()), op=n.op, right=n.value), n))
+            elif isinstance(n, ast.AnnAssign) and isinstance(n.target, ast.Name) and n.value is not None:
+                self.defs.setdefault(n.target.id, []).append((n.value, n))
+            elif isinstance(n, ast.NamedExpr) and isinstance(n.target, ast.Name):
+                self.defs.setdefault(n.target.id, []).append((n.value, n))
+            elif isinstance(n, ast.Assign) and len(n.targets) > 1:
+                for t_ in n.targets:
+                    for y in ast.walk(t_):
+                        if isinstance(y, ast.Name) and isinstance(y.ctx, ast.Store):
+                            self.defs.setdefault(y.id, []).append((ast.Constant(value=Ellipsis), n))
             if isinstance(n, ast.Assign) and len(n.targets) == 1:
                 t, v = n.targets[0], n.value
                 if isinstance(t, ast.Name):
@@ -201,8 +214,8 @@ class FuncFacts:
                     self.events.append(Ev("read", cn, st, c, size=c.args[0] if c.args else None))
                 elif f.attr == "close":
                     self.events.append(Ev("close", cn, st, c))
-                elif f.attr in ("tell", "fileno", "seekable"):
-                    pass
+                elif f.attr in ("tell", "fileno", "seekable", "writable", "readable", "isatty"):
+                    pass  # queries: they neither move the cursor nor change the file
                 else:
                     self.events.append(Ev("handle_other", cn, st, c, meth=f.attr))
                 continue
